@@ -219,6 +219,42 @@ def run(R, tier):
             n_db += 1
             R.check(oq.get(suf) == unit and num_ok and one, "R18.5", "%s:%s" % (q, suf), "-> Logarithmic(number unchanged, reference 1 %s)" % unit, "decibel suffix %s of %s: reference unit %s (expected %s), number passed through unchanged: %s" % (suf, q, unit, oq.get(suf), num_ok), where=b.span)
         R.check(set(seen) == set(oq) and delegates and not not_whole, "R18.5", "%s:db-table" % q, "dB suffixes %s; anything else goes to the linear conversion" % sorted(seen), "decibel table of %s is %s, expected %s (other suffixes must be delegated to the linear conversion)" % (q, sorted(seen), sorted(oq)), where=b.span)
+    # the same tables by folding each decibel conversion on concrete elements: every dB suffix of the quantity in three letter
+    # cases -> Logarithmic with its reference unit, whatever its length (`DB` alone is the ratio's); the quantity's own linear
+    # suffixes and near misses of the dB suffixes -> handed to the linear conversion (seed C18-O: a pre-check on the suffix's
+    # length and first letters is invisible to the reading of the guard chain above)
+    for q, b in sorted(dbs.items()):
+        oq = o["quantities"][q].get("db", {})
+        bad = []
+        texts = [(sfx.encode(), unit_) for sfx, unit_ in sorted(oq.items())]
+        for sfx, unit_ in texts:
+            for variant in {sfx, sfx.lower(), sfx[:1] + sfx[1:].lower()}:
+                tok = M.token(feng, "DecimalNumericSuffixProgramData", [RefV(Cell(fdai.BytesV(b"-3.5"), "num")), RefV(Cell(fdai.BytesV(variant), "suffix"))])
+                try:
+                    res = feng.run(b, [tok])
+                except (fdai.TooManyPaths, RecursionError):
+                    bad.append("%r: undecided" % variant)
+                    continue
+                oks = [r for r in res if M.outcome(r) == "Ok"]
+                vars_ = {r.retval.fields[0].name for r in oks if isinstance(r.retval.fields.get(0), EnumV)}
+                units_ = {(unit_of(r)[0] or "?").split("::")[-1] for r in oks}
+                if vars_ != {"Logarithmic"} or units_ != {unit_} or not all(M.outcome(r) in ("Ok", "Err(?)") for r in res):
+                    bad.append("%r -> %s %s (%s), expected Logarithmic with reference %s" % (variant, sorted(vars_), sorted(units_), sorted({M.outcome(r) for r in res}), unit_))
+        near = set()
+        for sfx, _u in texts:
+            near |= {sfx[:-1], sfx + b"X", b"D" + sfx[2:], sfx[1:]}
+        near = sorted(x for x in near if x and x.upper() not in {t.upper() for t, _u in texts})
+        for variant in near + [b"XYZ"]:
+            tok = M.token(feng, "DecimalNumericSuffixProgramData", [RefV(Cell(fdai.BytesV(b"-3.5"), "num")), RefV(Cell(fdai.BytesV(variant), "suffix"))])
+            try:
+                res = feng.run(b, [tok])
+            except (fdai.TooManyPaths, RecursionError):
+                bad.append("%r: undecided" % variant)
+                continue
+            vars_ = {r.retval.fields[0].name for r in res if M.outcome(r) == "Ok" and isinstance(r.retval.fields.get(0), EnumV)}
+            if "Logarithmic" in vars_:
+                bad.append("%r is taken as a decibel suffix" % variant)
+        R.check(not bad, "R18.5", "%s:db-folded" % q, "every dB suffix (%s) in three letter cases -> Logarithmic with its reference unit; %d near misses are not decibel suffixes" % (", ".join(sorted(oq)), len(near) + 1), "; ".join(bad[:4]), where=b.span)
     # a decibel parameter is a number with or without suffix: every other element type is refused here, not handed on to the
     # number type's conversion (which accepts MAXimum / MINimum / INFinity ... as character data - seed C18-K)
     for q, b in sorted(dbs.items()):
